@@ -784,3 +784,5 @@ CASES.append({'name': 'ben41r1-se2-components-swapped', 'props': ['C13'], 'expec
                          '            Box::new(SO2State::new(yaw)),\n            Box::new(RealVectorState::new(vec![x, y])),')]})
 CASES.append({'name': 'ben39r5-back-edges-skip-first', 'props': ['C18'], 'expect': ['C18.sym'], 'patch': '/verif/selftest/benign/ben39-r5.diff',
               'edits': [('oxmpl/src/geometric/planners/prm.rs', '        for &i in &neighbours {\n            roadmap[i].edges.push(new_node_idx);', '        for &i in neighbours.iter().skip(1) {\n            roadmap[i].edges.push(new_node_idx);')]})
+for _n in ('ben40-r1', 'ben40-r2', 'ben40-r3', 'ben40-r5'):
+    benign_patch(_n, ALL)                                       # RRT + shared code: planners/motion.rs is_motion_valid, Nearest fold + steer, let-else / all() / successors, loop-as-value + sample_target + tree_size() (r4 not followed: unsupported)
